@@ -74,12 +74,17 @@ func zzRefNext(rs []rune, i int) (code int, next int) {
 					return zzRefDontCare, i
 				}
 				if rs[i] == '*' {
-					if i+1 < n && rs[i+1] == '/' {
-						i += 2
+					// the usual reading ends the comment at the first "*/"; the scanner ends it at
+					// the first '/' after the first '*'. The two agree when only stars lie in between.
+					j := i + 1
+					for j < n && rs[j] == '*' {
+						j++
+					}
+					if j < n && rs[j] == '/' {
+						i = j + 1
 						break
 					}
-					// a '*' inside a block comment that does not close it: the scanner's reading
-					// differs from the usual one and the README is silent
+					// something else follows the star(s): the README does not say which reading holds
 					return zzRefDontCare, i
 				}
 				i++
@@ -253,3 +258,16 @@ func init() {
 	vn.Register("parser.ZZC11Lex", ZZC11Lex)
 	vn.Register("parser.ZZC12Lex", ZZC12Lex)
 }
+
+// ZZC11Parse: the whole ParseString pipeline (scanner, yacc driver with its semantic actions,
+// error channel, expandProcesses) on every rune string of length <= N returns — no hang, no
+// blocked send on the one-slot error channel, no panic — with a program or an error.
+func ZZC11Parse() {
+	rs := zzRunes()
+	procs, _, genv, err := ParseString(string(rs))
+	vn.Assert("C11.parse-yields-program-or-error", err != nil || genv != nil)
+	vn.Observe("error", err != nil)
+	vn.Observe("processes", len(procs))
+}
+
+func init() { vn.Register("parser.ZZC11Parse", ZZC11Parse) }
